@@ -82,6 +82,7 @@ def _more_calls(net, lat, lon, W, plain_names):
             if nm not in plain_names and "eigenvector" not in nm:
                 calls.append(("G." + nm, getattr(gnet, nm)))
         calls.append(("G.angular_distance", grid.angular_distance))
+        calls += netcommon.geo_calls(gnet, "G.")
         calls.append(("G.node_weights", lambda: gnet.node_weights))
     except Exception as ex:
         calls.append(("G.__init__", lambda ex=ex: (_ for _ in ()).throw(ex)))
